@@ -26,6 +26,7 @@ package main
 
 import (
 	"fmt"
+	"runtime"
 	"sync"
 	"sync/atomic"
 	"time"
@@ -47,13 +48,21 @@ type c12StressOut struct {
 	ClosersHit  int
 	Ticks       int
 	Inconcl     string
+	Bench       bool
+	BenchTicks  int64
+	Skipped     bool
+	StuckDump   string
 	Viols       []c12Viol
 	Obs         *c12Obs
 }
 
-func (w *c12Worker) stressOnce(max, nr, nEnv int, seed uint64) c12StressOut {
-	out := c12StressOut{Max: max, NR: nr}
-	in := c12NewInstMode(w.conn, max, c12Mode{Self: true})
+func (w *c12Worker) stressOnce(max, nr, nEnv int, seed uint64, bench bool) c12StressOut {
+	out := c12StressOut{Max: max, NR: nr, Bench: bench}
+	if c12Abandoned() {
+		out.Skipped = true
+		return out
+	}
+	in := c12NewInstMode(w.conn, max, c12Mode{Self: true, Bench: bench})
 	defer in.teardown()
 	r := vk.NewRng(seed)
 	add := func(kind, peer, format string, a ...any) {
@@ -76,20 +85,59 @@ func (w *c12Worker) stressOnce(max, nr, nEnv int, seed uint64) c12StressOut {
 			if n := atomic.LoadInt64(&in.stressSent); n-last >= 64 {
 				last = n
 				atomic.AddInt64(&in.clock, int64(6*time.Minute))
-				in.vs.Cleanup()
+				if !in.call("cleanup-tick", func() { in.vs.Cleanup() }) {
+					return
+				}
 				out.Ticks++
 			}
 			time.Sleep(50 * time.Microsecond)
 		}
 	}()
+	if bench { // startBenchmarkLoop + the progress renderer: a tick and a frame every few envelopes of the stream
+		wg.Add(1)
+		go func() {
+			defer wg.Done()
+			last := int64(-1)
+			for {
+				select {
+				case <-stop:
+					return
+				default:
+				}
+				if n := atomic.LoadInt64(&in.stressSent); n != last {
+					last = n
+					if !in.call("benchmark-tick", func() { in.vs.TickBenchmarks(time.Now()); in.vs.RenderView() }) {
+						return
+					}
+					atomic.AddInt64(&in.benchTicks, 1)
+				} else {
+					runtime.Gosched()
+				}
+			}
+		}()
+	}
 	member := make([]bool, nr)
 	send := func(typ string, payload any, from string) {
 		atomic.AddInt64(&in.clock, int64(time.Millisecond))
-		in.vs.HandleEnvelope(in.ctx, in.envelope(typ, payload, from))
+		env := in.envelope(typ, payload, from)
+		what := map[string]string{protocol.TypePeerJoined: "join", protocol.TypeManifestAccept: "accept", protocol.TypePeerLeft: "leave"}[typ]
+		in.call(what, func() { in.vs.HandleEnvelope(in.ctx, env) })
 		atomic.AddInt64(&in.stressSent, 1)
 		out.Envelopes++
 	}
-	for out.Envelopes < nEnv {
+	stuck := func() bool {
+		what := in.stuckWhat()
+		if what == "" {
+			return false
+		}
+		in.wmu.Lock()
+		out.StuckDump = in.stuckDump
+		in.wmu.Unlock()
+		add("sender-stops-handling-events", "", "%s had not returned after %s and still had not %s later, while a fresh sender of the same configuration went through join, accept, cleanup tick, leave and a state snapshot in between (envelope %d of the stream): the sender no longer handles events", what, c12DeliverWatchdog, c12DeliverWatchdog/2, out.Envelopes)
+		out.BenchTicks = atomic.LoadInt64(&in.benchTicks)
+		return true
+	}
+	for out.Envelopes < nEnv && in.halted() == "" {
 		p := int8(r.Intn(nr))
 		switch {
 		case !member[p]:
@@ -113,6 +161,9 @@ func (w *c12Worker) stressOnce(max, nr, nEnv int, seed uint64) c12StressOut {
 				out.LeavesOfRun++
 			}
 			for _, inv := range before {
+				if in.halted() != "" {
+					break // the delivery of the leave never returned: judged by the watched-delivery rule
+				}
 				in.mu.Lock()
 				told := inv.told
 				in.mu.Unlock()
@@ -125,19 +176,35 @@ func (w *c12Worker) stressOnce(max, nr, nEnv int, seed uint64) c12StressOut {
 		}
 	}
 	close(stop)
-	wg.Wait()
+	if stuck() {
+		return out
+	}
+	wgDone := make(chan struct{})
+	go func() { wg.Wait(); close(wgDone) }()
+	if !in.watch("cleanup-or-benchmark-tick", wgDone) {
+		if !stuck() {
+			out.Inconcl = fmt.Sprintf("stress max=%d: %s", max, in.halted())
+		}
+		return out
+	}
+	out.BenchTicks = atomic.LoadInt64(&in.benchTicks)
 	// drain: the transfers finish by themselves and every end re-dispatches; settled when a
 	// full quiescence round saw no new TransferStart
 	for round := 0; ; round++ {
 		in.mu.Lock()
-		ts0 := in.tsTotal
+		ts0, inv0, ex0 := in.tsTotal, len(in.invs), in.exits
 		in.mu.Unlock()
 		if why := in.quiesce(); why != "" {
-			out.Inconcl = fmt.Sprintf("stress max=%d: %s", max, why)
+			if !stuck() {
+				out.Inconcl = fmt.Sprintf("stress max=%d: %s", max, why)
+			}
 			return out
 		}
 		in.mu.Lock()
-		settled := in.tsTotal == ts0 && in.exits >= len(in.invs) && len(in.invs) >= in.tsTotal
+		// nothing moved during a whole round (a TransferStart sent after this round's marker, whose
+		// stub started and ended before the marker came back, shows up as a changed start count now
+		// and as a changed message count in the next round)
+		settled := in.tsTotal == ts0 && len(in.invs) == inv0 && in.exits == ex0 && in.exits >= len(in.invs) && len(in.invs) >= in.tsTotal
 		in.mu.Unlock()
 		if settled {
 			break
@@ -148,6 +215,9 @@ func (w *c12Worker) stressOnce(max, nr, nEnv int, seed uint64) c12StressOut {
 		}
 	}
 	o := in.observe(0)
+	if stuck() {
+		return out
+	}
 	out.Obs = &o
 	out.MaxLive = o.MaxLiveAtStart
 	if len(o.Overshoot) > max {
@@ -191,12 +261,12 @@ func (w *c12Worker) stressOnce(max, nr, nEnv int, seed uint64) c12StressOut {
 }
 
 type c12StressStats struct {
-	Streams, Envelopes, Starts, Leaves, LeavesOfRun, Ticks, ClosersHit int64
+	Streams, Envelopes, Starts, Leaves, LeavesOfRun, Ticks, ClosersHit, BenchTicks int64
 	MaxLive                                                            [4]int32
 	FailCount                                                          map[string]int
 }
 
-func (x *c12Explorer) stress(rng *vk.Rng, streams, nEnv int) *c12StressStats {
+func (x *c12Explorer) stress(rng *vk.Rng, streams, nEnv int, bench bool) *c12StressStats {
 	e := x.e
 	st := &c12StressStats{FailCount: map[string]int{}}
 	seeds := make([]uint64, streams)
@@ -210,7 +280,7 @@ func (x *c12Explorer) stress(rng *vk.Rng, streams, nEnv int) *c12StressStats {
 			max := 1 + i%3
 			var o c12StressOut
 			for attempt := 0; attempt < 2; attempt++ {
-				o = w.stressOnce(max, c12NRmax, nEnv, seeds[i])
+				o = w.stressOnce(max, c12NRmax, nEnv, seeds[i], bench)
 				if o.Inconcl == "" {
 					break
 				}
@@ -221,12 +291,17 @@ func (x *c12Explorer) stress(rng *vk.Rng, streams, nEnv int) *c12StressStats {
 					go func() { _ = old.Close() }()
 				}
 			}
+			if o.Skipped {
+				atomic.AddInt64(&c12SkippedAfterStuck, 1)
+				return
+			}
 			e.R.Eval()
 			if o.Inconcl != "" {
 				e.R.Inconcl(o.Inconcl)
 				return
 			}
 			atomic.AddInt64(&st.Streams, 1)
+			atomic.AddInt64(&st.BenchTicks, o.BenchTicks)
 			atomic.AddInt64(&st.Envelopes, int64(o.Envelopes))
 			atomic.AddInt64(&st.Starts, int64(o.Starts))
 			atomic.AddInt64(&st.Leaves, int64(o.Leaves))
@@ -241,12 +316,19 @@ func (x *c12Explorer) stress(rng *vk.Rng, streams, nEnv int) *c12StressStats {
 					break
 				}
 			}
-			e.R.Distinct(fmt.Sprintf("stress:max%d:seed%x", max, seeds[i]))
-			e.R.Count("histories:stress")
+			cfg := ""
+			if bench {
+				cfg = ":benchmark"
+			}
+			e.R.Distinct(fmt.Sprintf("stress%s:max%d:seed%x", cfg, max, seeds[i]))
+			e.R.Count("histories:stress" + cfg)
 			mu.Lock()
 			seen := map[string]bool{}
 			for _, v := range o.Viols {
 				key := fmt.Sprintf("stress:%s:max%d", v.Kind, max)
+				if bench {
+					key += ":benchmark"
+				}
 				if seen[key] {
 					continue
 				}
@@ -268,7 +350,7 @@ func (x *c12Explorer) stress(rng *vk.Rng, streams, nEnv int) *c12StressStats {
 			fmt.Sprintf("max-receivers=%d, %d envelopes (join/accept/leave for %d receivers) delivered back to back by one goroutine while self-finishing stub transfers end on their own goroutines and a third goroutine runs cleanup ticks: %s",
 				o.Max, o.Envelopes, o.NR, fmt.Sprint(what)),
 			map[string]any{"max": o.Max, "receivers": o.NR, "envelopes": o.Envelopes, "class": "stress stream, stub mode self-finishing", "streams_with_this_key": st.FailCount[key]},
-			map[string]any{"violations": o.Viols, "state_after_drain": o.Obs, "transfer_starts": o.Starts})
+			map[string]any{"violations": o.Viols, "state_after_drain": o.Obs, "transfer_starts": o.Starts, "benchmark_mode": o.Bench, "benchmark_ticks": o.BenchTicks, "goroutines_inside_the_sender": o.StuckDump})
 	}
 	return st
 }
